@@ -1,11 +1,35 @@
-from jsim.envs.base import Adapter
+"""MMST: rules written from docs/environments/mmst.md and the class docstring.
+
+Random connected graph; each agent owns a group of nodes (`node_types == agent id`, -1 = utility node) and
+starts on one of them. Each step every agent names the node it wants to move to. "An action is invalid if
+the agent picks a node it has no edge to or the node is a utility node already been used by another agent";
+an invalid choice leaves the agent where it is. If several agents name the same node, a random one gets it.
+The episode ends when every agent has connected (visited) all its nodes, or at the time limit.
+
+State conventions (from types.py): `positions[i]` current node, `connected_nodes[i]` the route of agent i
+(-1 padding), `connected_nodes_index[i][v] != -1` iff agent i has visited v, `nodes_to_connect[i]` the group.
+The observation relabels `node_types` from the first agent's perspective: its visited nodes 0, its unvisited
+group nodes 1, the k-th next agent's visited nodes 2k and unvisited group nodes 2k+1, untouched utility
+nodes -1.
+"""
+from __future__ import annotations
+
+from collections import deque
+from typing import Any, List, Optional, Set
+
+import numpy as np
+
 from jsim.envs._mk import cfg, cross_tl
+from jsim.envs.base import Adapter
 
 
 class A(Adapter):
     name = "MMST"
     mask_mode = "per_agent"
     fork_every = 4
+    has_reaction = True
+    has_constraints = True
+    has_observer = True
 
     def configs(self):
         base = [cfg("n36a3", True, n=36, e=72, deg=5, a=3, k=4, tl=None), cfg("n12a2", True, n=12, e=18, deg=4, a=2, k=3, tl=None),
@@ -22,3 +46,215 @@ class A(Adapter):
 
     def time_limit(self, env, c):
         return 70 if c.get("tl") is None else c["tl"]
+
+    # ---- state readers -------------------------------------------------------------------------------
+    @staticmethod
+    def _routes(s: Any) -> List[Set[int]]:
+        """Nodes each agent has visited (union of the two bookkeeping arrays; they agree except when the route array
+        is full on the very last step)."""
+        cn = np.asarray(s.connected_nodes)
+        ci = np.asarray(s.connected_nodes_index)
+        out = []
+        for i in range(cn.shape[0]):
+            r = {int(v) for v in cn[i] if v >= 0}
+            r |= {int(v) for v in np.flatnonzero(ci[i] != -1)}
+            r.add(int(np.asarray(s.positions)[i]))
+            out.append(r)
+        return out
+
+    def _finished(self, s: Any) -> np.ndarray:
+        routes = self._routes(s)
+        need = np.asarray(s.nodes_to_connect)
+        return np.asarray([all(int(v) in routes[i] for v in need[i]) for i in range(need.shape[0])], bool)
+
+    # ---- C04 -------------------------------------------------------------------------------------
+    def legal(self, s: Any, env: Any) -> np.ndarray:
+        adj = np.asarray(s.adj_matrix).astype(bool)
+        types = np.asarray(s.node_types)
+        pos = np.asarray(s.positions)
+        routes = self._routes(s)
+        fin = self._finished(s)
+        n_agents, n = len(pos), adj.shape[0]
+        out = np.zeros((n_agents, n), bool)
+        for i in range(n_agents):
+            if fin[i]:
+                continue  # nothing left to do (row not judged)
+            used_by_others = set().union(*[routes[j] for j in range(n_agents) if j != i]) if n_agents > 1 else set()
+            for a in range(n):
+                if adj[pos[i], a] and not (types[a] == -1 and a in used_by_others):
+                    out[i, a] = True
+        return out
+
+    def judged(self, s: Any, env: Any) -> np.ndarray:
+        # finished agents are not judged: their mask row is cleared one step late by construction and the rules are silent
+        fin = self._finished(s)
+        n = np.asarray(s.adj_matrix).shape[0]
+        return np.repeat(~fin[:, None], n, axis=1)
+
+    def describe(self, s, env, idx):
+        i, a = int(idx[0]), int(idx[1])
+        pos = int(np.asarray(s.positions)[i])
+        routes = self._routes(s)
+        others = sorted(j for j in range(len(routes)) if j != i and a in routes[j])
+        return (f"agent {i} on node {pos}; edge {pos}-{a}: {bool(np.asarray(s.adj_matrix)[pos, a])}; node {a} type {int(np.asarray(s.node_types)[a])}, "
+                f"visited by other agents {others}")
+
+    def reaction_invalid(self, ps, action, agent, s, ts, env, cfg):
+        a = int(action[agent])
+        before, after = int(np.asarray(ps.positions)[agent]), int(np.asarray(s.positions)[agent])
+        if after == a and a != before:
+            return False  # the agent went where it asked to go
+        if any(int(b) == a for j, b in enumerate(action) if j != agent):
+            return None  # somebody else named the same node: the random tie-break may have kept this agent back
+        return True  # it stayed although nobody competed: the move was treated as invalid
+
+    def action_in_mask(self, action, mask):
+        # an agent whose mask row is empty (finished) has no mask-respecting choice: whatever it plays is ignored
+        mask = np.asarray(mask).astype(bool)
+        return all(bool(mask[i, int(a)]) or not mask[i].any() for i, a in enumerate(action))
+
+    # ---- C06 -------------------------------------------------------------------------------------
+    def constraints(self, hist, env, cfg):
+        s = hist[-1].state
+        types = np.asarray(s.node_types)
+        adj = np.asarray(s.adj_matrix).astype(bool)
+        n_agents = len(np.asarray(s.positions))
+        # routes replayed from the recorded positions (the action history as the env resolved it)
+        walked: List[Set[int]] = [set() for _ in range(n_agents)]
+        prev = None
+        for rec in hist:
+            p = [int(v) for v in np.asarray(rec.state.positions)]
+            for i in range(n_agents):
+                walked[i].add(p[i])
+                if prev is not None and p[i] != prev[i] and not adj[prev[i], p[i]]:
+                    return ("moved_without_edge", f"agent {i} went {prev[i]} -> {p[i]} at step {rec.t} but there is no such edge")
+            prev = p
+        stored = self._routes(s)
+        for name, routes in (("replayed from the history", walked), ("stored in connected_nodes", stored)):
+            for u in np.flatnonzero(types == -1):
+                who = [i for i in range(n_agents) if int(u) in routes[i]]
+                if len(who) > 1:
+                    return ("utility_node_shared", f"utility node {int(u)} is on the routes of agents {who} ({name})")
+        for i in range(n_agents):
+            if not stored[i] <= walked[i]:
+                return ("route_not_in_history", f"agent {i}: connected_nodes holds {sorted(stored[i] - walked[i])} which it never stood on")
+            full = int(np.asarray(s.position_index)[i]) + 1 >= np.asarray(s.connected_nodes).shape[1]
+            if not walked[i] <= stored[i] and not full:
+                return ("history_not_in_route", f"agent {i}: stood on {sorted(walked[i] - stored[i])} but connected_nodes does not record it")
+        if int(hist[-1].ts.step_type) == 2 and int(s.step_count) < self.time_limit(env, cfg):
+            need = np.asarray(s.nodes_to_connect)
+            for i in range(n_agents):
+                missing = [int(v) for v in need[i] if int(v) not in walked[i]]
+                if missing:
+                    return ("ended_incomplete", f"episode ended at step {int(s.step_count)} before the time limit but agent {i} never reached its nodes {missing}")
+                if any(types[int(v)] != i for v in need[i]):
+                    return ("group_type_mismatch", f"agent {i}: nodes_to_connect {need[i].tolist()} are not all of type {i}")
+        return None
+
+    # ---- C11 -------------------------------------------------------------------------------------
+    def end_cause(self, ps, action, s, ts, env, cfg):
+        return "all_agents_connected" if bool(self._finished(s).all()) else None
+
+    # ---- C12 -------------------------------------------------------------------------------------
+    def observe(self, s, obs, env, cfg):
+        for name in ("adj_matrix", "positions", "step_count", "action_mask"):
+            a, b = np.asarray(getattr(obs, name)), np.asarray(getattr(s, name))
+            if a.shape != b.shape or not np.array_equal(a, b):
+                return (name, f"obs.{name} != state.{name}")
+        types = np.asarray(s.node_types)
+        got = np.asarray(obs.node_types)
+        if got.shape != types.shape:
+            return ("node_types_shape", f"{got.shape} vs {types.shape}")
+        cn, ci = np.asarray(s.connected_nodes), np.asarray(s.connected_nodes_index)
+        n_agents = cn.shape[0]
+        viewer = 0  # "to make the environment single agent, we use the first agent's observation"
+        for v in range(len(types)):
+            in_route = [bool((cn[k] == v).any()) for k in range(n_agents)]
+            in_index = [bool(ci[k][v] != -1) for k in range(n_agents)]
+            allowed = set()
+            for k in range(n_agents):
+                if in_route[k] or in_index[k]:
+                    allowed.add(2 * ((k - viewer) % n_agents))  # visited by agent k (several visitors: the docs do not say who wins)
+            if not any(in_route) or not any(in_index):  # unvisited by at least one of the two records
+                t = int(types[v])
+                allowed.add(-1 if t == -1 else 2 * ((t - viewer) % n_agents) + 1)
+            if int(got[v]) not in allowed:
+                return ("node_types", f"node {v} (type {int(types[v])}, visited by {[k for k in range(n_agents) if in_route[k] or in_index[k]]}) "
+                        f"is shown as {int(got[v])}, expected one of {sorted(allowed)}")
+        return None
+
+    # ---- policies ----------------------------------------------------------------------------------
+    def _toward(self, s: Any, i: int, allowed: np.ndarray, goals: Set[int]) -> Optional[int]:
+        """First hop of a shortest path from agent i's node to any goal through nodes it may enter."""
+        adj = np.asarray(s.adj_matrix).astype(bool)
+        start = int(np.asarray(s.positions)[i])
+        prev = {start: None}
+        dq = deque([start])
+        while dq:
+            cur = dq.popleft()
+            if cur in goals and cur != start:
+                while prev[cur] != start:
+                    cur = prev[cur]
+                return cur
+            for nb in np.flatnonzero(adj[cur]):
+                nb = int(nb)
+                if nb not in prev and allowed[nb]:
+                    prev[nb] = cur
+                    dq.append(nb)
+        return None
+
+    def _enterable(self, s: Any, i: int) -> np.ndarray:
+        types = np.asarray(s.node_types)
+        routes = self._routes(s)
+        ok = np.ones(len(types), bool)
+        for j, r in enumerate(routes):
+            if j != i:
+                for v in r:
+                    if types[v] == -1:
+                        ok[v] = False
+        return ok
+
+    def policy_complete(self, s, env, rng, legal):
+        pos = np.asarray(s.positions)
+        need = np.asarray(s.nodes_to_connect)
+        routes = self._routes(s)
+        out = []
+        for i in range(len(pos)):
+            goals = {int(v) for v in need[i]} - routes[i]
+            hop = self._toward(s, i, self._enterable(s, i), goals) if goals else None
+            if hop is None or (legal is not None and not legal[i, hop]):
+                idx = np.flatnonzero(legal[i]) if legal is not None else []
+                hop = int(idx[int(rng.integers(0, len(idx)))]) if len(idx) else int(pos[i])
+            out.append(int(hop))
+        return out
+
+    def policy_survive(self, s, env, rng, legal):
+        """Random legal walk, but agent 0 never steps on the last node of its group (so the episode cannot complete)."""
+        pos = np.asarray(s.positions)
+        need = np.asarray(s.nodes_to_connect)
+        routes = self._routes(s)
+        out = []
+        for i in range(len(pos)):
+            idx = [int(a) for a in np.flatnonzero(legal[i])] if legal is not None else []
+            if i == 0:
+                missing = {int(v) for v in need[0]} - routes[0]
+                if len(missing) <= 1:
+                    idx = [a for a in idx if a not in missing]
+            out.append(idx[int(rng.integers(0, len(idx)))] if idx else int(pos[i]))  # own node: no self-edge, so the agent stays
+        return out
+
+    def policy_collide(self, s, env, rng, legal):
+        """Agents try to name the same node: each picks the legal node that most other agents can also reach now."""
+        if legal is None:
+            return None
+        pos = np.asarray(s.positions)
+        score = legal.sum(axis=0)
+        out = []
+        for i in range(len(pos)):
+            idx = np.flatnonzero(legal[i])
+            if len(idx) == 0:
+                out.append(int(pos[i]))
+                continue
+            best = idx[score[idx] == score[idx].max()]
+            out.append(int(best[int(rng.integers(0, len(best)))]))
+        return out
